@@ -367,8 +367,25 @@ def check_c17(tier, seed, t0):
         fd["driver"] = "known(feature-off vs default)"
         fd["replay_ops"] = vf.session_ops(lines, fd["line"])
         extra.append(fd)
-    unk = driver_run("conformant", tier, seed, puf=False)
-    cov = {"events_compared_between_builds": eq["states"],
+    # mixed streams (templates with unknown field types among known-only ones): same caches in both builds after
+    # every call, and every packet that mentions no unknown field type returned identically (TraceEq.tla, MIXED=1)
+    onm = driver_run("conformant", tier, seed, puf=True, keep_trace=True)
+    unk = driver_run("conformant", tier, seed, puf=False, keep_trace=True)
+    if not (os.path.exists(onm["trace"]) and os.path.exists(unk["trace"])):
+        shutil.rmtree(os.path.dirname(onm["trace"]), ignore_errors=True)
+        shutil.rmtree(os.path.dirname(unk["trace"]), ignore_errors=True)
+        onm = driver_run("conformant", tier, seed, puf=True, keep_trace=True)
+        unk = driver_run("conformant", tier, seed, puf=False, keep_trace=True)
+    wd2 = os.path.join(vf.OUT, "c17mixed")
+    shutil.rmtree(wd2, ignore_errors=True)
+    eqm = vf.tlc_trace(onm["trace"], wd2, cfg="TraceEq.cfg", module="TraceEq.tla", env_extra={"TRACE2": unk["trace"], "MIXED": "1"})
+    with open(unk["trace"]) as f:
+        mlines = f.readlines()
+    for fd in eqm["findings"]:
+        fd["driver"] = "conformant(feature-off vs default)"
+        fd["replay_ops"] = vf.session_ops(mlines, fd["line"])
+        extra.append(fd)
+    cov = {"events_compared_between_builds": eq["states"], "events_compared_between_builds_mixed_streams": eqm["states"],
            "feature_off_sets_with_unknown_fields_seen": "see drivers.conformant"}
     return emit("C17", tier, seed, t0, [offr, unk], extra_findings=extra, extra_cov=cov)
 
